@@ -22,7 +22,7 @@ THEOREMS = [
     "Registry.inv_init", "Registry.inv_holds_init",
     "Registry.dset_get_same", "Registry.dset_get_other", "Registry.ddel_get_other",
     # the module table (duplicate module names): System._addUnprocessedModule / _handleDuplicateModule / _remove
-    "ModTable.inv_init", "ModTable.step_ok", "ModTable.inv_step", "ModTable.inv_run", "ModTable.run_ok",
+    "ModTable.inv_init", "ModTable.step_ok", "ModTable.inv_step", "ModTable.inv_run", "ModTable.run_ok", "ModTable.invB_run",
     "ModTable.registered_under_chain_name", "ModTable.pending_are_registered", "ModTable.parent_registered",
     "ModTable.contents_registered", "ModTable.roots_registered_unique", "ModTable.winner_rule",
     "ModTable.old_replaced_package_counterexample",
